@@ -15,6 +15,7 @@ type State struct {
 	heap   map[string]*Term
 	epoch  int // bumped by havoc-all; unknown keys resolve to a per-epoch symbol
 	allocN int
+	allocB *Term // allocation base (alloc0, or a fresh symbol after a loop havoc)
 	trace  []string
 	seen   map[int]bool // terms that already have their type facts in pc
 	hv     map[string]int
@@ -23,7 +24,7 @@ type State struct {
 }
 
 func (st *State) clone() *State {
-	n := &State{epoch: st.epoch, allocN: st.allocN}
+	n := &State{epoch: st.epoch, allocN: st.allocN, allocB: st.allocB}
 	n.pc = append([]*Term{}, st.pc...)
 	n.cells = make(map[int]Val, len(st.cells))
 	for k, v := range st.cells {
@@ -48,6 +49,9 @@ func (st *State) clone() *State {
 func (st *State) assume(t *Term) {
 	if t == nil || t.isTrue() {
 		return
+	}
+	if t.bound {
+		return // a fact about a term under a binder cannot be asserted at top level
 	}
 	if t.isFalse() {
 		st.dead = true
@@ -74,7 +78,23 @@ func (st *State) assume(t *Term) {
 var alloc0 = func() *Term { return Sym("alloc0", SInt) }
 
 // allocTerm is the next fresh reference in this state.
-func (st *State) allocTerm() *Term { return Add(alloc0(), IntLit(int64(st.allocN))) }
+func (st *State) allocTerm() *Term {
+	b := st.allocB
+	if b == nil {
+		b = alloc0()
+	}
+	return Add(b, IntLit(int64(st.allocN)))
+}
+
+// rebaseAlloc forgets how many objects exist (loop havoc): the next fresh reference is an
+// unknown value not below the current one, so objects allocated by earlier iterations
+// cannot collide with this iteration's allocations.
+func (st *State) rebaseAlloc() {
+	old := st.allocTerm()
+	nb := Fresh("allocL", SInt)
+	st.allocB, st.allocN = nb, 0
+	st.assume(Ge(nb, old))
+}
 
 func (st *State) newRef() *Term {
 	r := st.allocTerm()
@@ -101,7 +121,35 @@ func (st *State) heapGet(key, sort string) *Term {
 	}
 	t := Sym(name, sort)
 	st.heap[key] = t
+	if heapIsRef[key] {
+		// heap well-formedness: every reference stored in the heap is allocated
+		bound := st.allocTerm()
+		if strings.HasPrefix(name, "H0|") {
+			bound = alloc0()
+		}
+		r := BoundVar("wf_r", SInt)
+		if strings.HasPrefix(sort, "(Array Int (Array Int ") {
+			i := BoundVar("wf_i", SInt)
+			x := Select(Select(t, r), i)
+			st.assume(Forall([]*Term{r, i}, And(Ge(x, IntLit(0)), Lt(x, bound)), x))
+		} else if sort == arrSort(SInt, SInt) {
+			x := Select(t, r)
+			st.assume(Forall([]*Term{r}, And(Ge(x, IntLit(0)), Lt(x, bound)), x))
+		}
+	}
 	return t
+}
+
+// heapIsRef marks heap components whose values are references.
+var heapIsRef = map[string]bool{}
+
+func noteLeaf(key string, l leaf) {
+	if l.typ != nil && kindOf(l.typ) == kRef {
+		heapIsRef[key] = true
+	}
+	if strings.HasSuffix(l.path, "#arr") {
+		heapIsRef[key] = true
+	}
 }
 
 func (st *State) heapSet(key string, t *Term) {
@@ -196,6 +244,9 @@ func (st *State) mark(t *Term) bool {
 	if _, lit := t.intVal(); lit {
 		return false
 	}
+	if t.bound {
+		return false // under a quantifier: facts cannot be stated outside the binder
+	}
 	if st.seen[t.id] {
 		return false
 	}
@@ -243,6 +294,7 @@ func (st *State) load(p *Place) Val {
 		t := subType(p.Typ, p.Path)
 		base := pathString(p.Typ, p.Path)
 		return st.loadLeaves(t, func(l leaf) *Term {
+			noteLeaf(fieldKey(p.Typ, base+l.path), l)
 			arr := st.heapGet(fieldKey(p.Typ, base+l.path), arrSort(SInt, l.sort))
 			return Select(arr, p.Ref)
 		})
@@ -253,6 +305,7 @@ func (st *State) load(p *Place) Val {
 			base = pathString(p.Typ, p.Path)
 		}
 		return st.loadLeaves(t, func(l leaf) *Term {
+			noteLeaf(boxKey(p.Typ, base+l.path), l)
 			arr := st.heapGet(boxKey(p.Typ, base+l.path), arrSort(SInt, l.sort))
 			return Select(arr, p.Ref)
 		})
@@ -263,6 +316,7 @@ func (st *State) load(p *Place) Val {
 			base = pathString(p.Typ, p.Path)
 		}
 		return st.loadLeaves(t, func(l leaf) *Term {
+			noteLeaf(elemKey(p.Typ, base+l.path), l)
 			arr := st.heapGet(elemKey(p.Typ, base+l.path), arrSort(SInt, arrSort(SInt, l.sort)))
 			return Select(Select(arr, p.Ref), p.Idx)
 		})
@@ -309,12 +363,15 @@ func (st *State) store(p *Place, v Val) {
 			switch p.Kind {
 			case PField:
 				k := fieldKey(p.Typ, base+l.path)
+				noteLeaf(k, l)
 				st.heapSet(k, Store(st.heapGet(k, arrSort(SInt, l.sort)), p.Ref, ts[i]))
 			case PBox:
 				k := boxKey(p.Typ, base+l.path)
+				noteLeaf(k, l)
 				st.heapSet(k, Store(st.heapGet(k, arrSort(SInt, l.sort)), p.Ref, ts[i]))
 			case PElem:
 				k := elemKey(p.Typ, base+l.path)
+				noteLeaf(k, l)
 				outer := st.heapGet(k, arrSort(SInt, arrSort(SInt, l.sort)))
 				st.heapSet(k, Store(outer, p.Ref, Store(Select(outer, p.Ref), p.Idx, ts[i])))
 			case PGlobal:
